@@ -2577,6 +2577,14 @@ def obj_ptr_methods : List String :=
 def obj_ptr_effects : List String :=
   ["Score:reads-only", "Set:writes"]
 
+/-- declarations of the verification hooks files (verif build only; not translated): they may only add accessors -/
+def hook_decls : List String :=
+  ["zz_verif_hooks.go:func VerifBytes", "zz_verif_hooks.go:func VerifFromBytes", "zz_verif_hooks.go:func VerifLenVec", "zz_verif_hooks.go:func VerifLookupMV", "zz_verif_hooks.go:func VerifMacroVector", "zz_verif_hooks.go:func VerifRoundup"]
+
+/-- files of the package directory that belong to neither the ordinary nor the verif build, and non-Go sources -/
+def pkg_other_files : List String :=
+  []
+
 /-- `init` functions of the package (file:init) -/
 def pkg_inits : List String :=
   []
@@ -2596,6 +2604,14 @@ def pkg_writes : List String :=
 /-- function:variable.method for every method call on a package-level variable; function:go for goroutine starts -/
 def pkg_calls : List String :=
   []
+
+/-- package-level variables (blank ones included) whose initialiser runs code: name:calls and function literals in it -/
+def pkg_var_inits : List String :=
+  ["ErrInvalidCVSSHeader:call errors.New", "ErrInvalidMetricOrder:call errors.New", "ErrInvalidMetricValue:call errors.New", "ErrOutOfBoundsScore:call errors.New", "ErrTooShortVector:call errors.New"]
+
+/-- function:variable for every mention of a package-level variable (other than the `error` sentinels) in a function body or initialiser -/
+def pkg_var_uses : List String :=
+  ["CVSS40.Score:highestSeverityVectors", "CVSS40.Score:highestSeverityVectorsEQ3EQ6", "ParseVector:order", "severityDistance:sevIdx"]
 
 /-- sync.Pool variables and what their `New` makes -/
 def pool_new : List String :=
